@@ -319,8 +319,11 @@ pub mod passterm {
     pub struct Error;
     #[verifier::external_body]
     pub fn prompt_password_tty(prompt: Option<&str>) -> (r: Result<String, Error>) { unimplemented!() }
+    /// the prompt text goes to the given stream: standard output only with the permission the key commands have (C08)
     #[verifier::external_body]
-    pub fn prompt_password_stdin(prompt: Option<&str>, s: Stream) -> (r: Result<String, Error>) { unimplemented!() }
+    pub fn prompt_password_stdin(prompt: Option<&str>, s: Stream) -> (r: Result<String, Error>)
+        requires s is Stdout ==> super::stdout_text_permitted()
+    { unimplemented!() }
 }
 impl From<passterm::Error> for AnyhowError { #[verifier::external_body] fn from(e: passterm::Error) -> AnyhowError { AnyhowError } }
 impl vstd::std_specs::convert::FromSpecImpl<passterm::Error> for AnyhowError {
